@@ -367,9 +367,17 @@ func streamDefect(thorough bool) {
 			}
 			body := valid[len(v.header):]
 			if v.name != "20" {
-				for _, p := range []string{"", "CVSS:3.", "cvss:4.0", "CVSS:2.0", "CVSS:3.0", "CVSS:3.1", "CVSS:4.0", "XCVSS:3.1", "CVSS:4.1"} {
-					if !strings.HasPrefix(p+body, v.header) {
-						emitD("header", 0, 0, "", p, p+body)
+				// Spec side condition (Spec/Errors.lean, Defect.header): the part of the result before its first '/' is not the header;
+				// this includes the right header followed by junk
+				for _, p := range []string{"", "CVSS:3.", "cvss:4.0", "CVSS:2.0", "CVSS:3.0", "CVSS:3.1", "CVSS:4.0", "XCVSS:3.1", "CVSS:4.1",
+					v.header + "X", v.header + "1", v.header + " ", v.header + ":", v.header + "\x00", v.header + v.header, " " + v.header, "X/" + v.header, v.header + "/ZZ:Q"} {
+					s := p + body
+					head := s
+					if k := strings.IndexByte(s, '/'); k >= 0 {
+						head = s[:k]
+					}
+					if head != v.header {
+						emitD("header", 0, 0, "", p, s)
 					}
 				}
 			}
